@@ -817,6 +817,21 @@ fn crash_found(c: &Crash, who: &str, method: &str, at: usize) -> Found {
             at_event: at,
         };
     }
+    if c.what.contains(super::passwatch::PARSE_BUDGET_MARKER) {
+        return Found {
+            class: "nonterminating_parse".into(),
+            sig: format!(
+                "nonterminating:parse:{}:{}",
+                who,
+                method.rsplit('/').next().unwrap_or(method)
+            ),
+            message: format!(
+                "{} server, {}: does not terminate in any useful sense ({})",
+                who, method, c.what
+            ),
+            at_event: at,
+        };
+    }
     if c.what.contains(super::passwatch::WORK_BUDGET_MARKER) {
         return Found {
             class: "nonterminating_expansion".into(),
